@@ -154,6 +154,9 @@ fn subject(seed: u64, k: u64) -> Subject {
         source: "https://a.com/".into(),
         rtype: "script",
     });
+    // documents (the csp query has its own lookup path)
+    reqs.push(gen::Req { url: "https://a.com/".into(), source: "https://a.com/".into(), rtype: "document" });
+    reqs.push(gen::Req { url: "https://a.com/js/frame.html".into(), source: "https://other.org/".into(), rtype: "subdocument" });
     Subject { lines, buf, reqs }
 }
 
